@@ -70,6 +70,7 @@ Section IO.
     | VType t =>   (* a type without a spec name, or where names are not read back, is refused *)
         if cast_types then match assoc_ty t (sx_inv_dtype X) with Some n => Ok (VStr n) | None => Err TypeError end
         else Err TypeError
+    | VStr _ => if cast_types then Err TypeError else Ok v   (* from_spec reads every string there as a type name *)
     | VDict d => Ok (escape_map d)
     | VObj _ => Err OtherExc          (* an object inside a literal: not modelled *)
     | _ => Ok v
@@ -120,9 +121,16 @@ Section IO.
                                 (l_kwargs l) in
                 Ok (escape_map items)
               else
+                (* each value of the keyword mapping is an ITEM of a mapping argument: a literal list is copied as it is,
+                   a literal mapping is escaped, a data path written as its spec *)
                 let* items := (fix go (kws : list (string * A)) : res (list (pyval * pyval)) := match kws with
                                  | [] => Ok []
-                                 | (k', a) :: r => let* x := arg_to_json cast_types a in let* r' := go r in Ok ((VStr k', x) :: r') end)
+                                 | (k', a) :: r =>
+                                     let* x := match arg_raw a with
+                                               | Ok v => item_to_json cast_types v
+                                               | Err _ => arg_to_json cast_types a
+                                               end in
+                                     let* r' := go r in Ok ((VStr k', x) :: r') end)
                                 (l_kwargs l) in
                 Ok (VDict items)
             else if va && (npk =? 0)%nat && negb kw then
